@@ -35,7 +35,8 @@ REG.klass("OrderInfo", B + "backtesting.orders.OrderInfo",
                   "amount_filled": "Real", "amount_remaining": "Real", "quote_amount_filled": "Real",
                   "fees": "Dict[Str,Real]", "limit_price": "Opt[Real]", "stop_price": "Opt[Real]",
                   "loan_ids": "List[Str]"})
-REG.klass("Order", B + "backtesting.orders.Order", abstract=True,
+REG.klass("ExchObj", B + "backtesting.helpers.ExchangeObjectProto", abstract=True)
+REG.klass("Order", B + "backtesting.orders.Order", abstract=True, bases=["ExchObj"],
           fields={"_id": "Str", "_operation": "OrderOperation", "_pair": "Val:Pair", "_amount": "Real",
                   "_state": "OrderState", "_balance_updates": "ValueMap", "_fees": "ValueMap",
                   "_fills": "List[Fill]", "_auto_borrow": "Bool", "_auto_repay": "Bool", "_loan_ids": "Set[Str]",
@@ -73,3 +74,61 @@ REG.klass("InfiniteLiquidity", B + "backtesting.liquidity.InfiniteLiquidity", ba
 REG.klass("VolumeShareImpact", B + "backtesting.liquidity.VolumeShareImpact", bases=["LiquidityStrategy"],
           fields={"_volume_limit_pct": "Real", "_price_impact_pct": "Real", "_total_liquidity": "Real",
                   "_used_liquidity": "Real"})
+
+# --- backtesting: containers (generic over the element class) -------------------------------------------------------
+REG.klass("ExchangeObjectContainer", B + "backtesting.helpers.ExchangeObjectContainer", params={"T": "ExchObj"},
+          fields={"_items": "Dict[Str,$T]", "_open_items": "List[$T]", "_reindex_every": "Int", "_reindex_counter": "Int"},
+          # ghost: position of every open registered item in _open_items (replaces an existential in the invariant)
+          ghost={"pos": "MMap[$T,Int]"})
+REG.klass("OrderContainer", B + "backtesting.helpers.ExchangeObjectContainer", bases=["ExchangeObjectContainer"],
+          params={"T": "Order"})
+
+# --- core: events / dispatcher (fields used by the backtesting exchange) ---------------------------------------------
+REG.klass("Producer", B + "core.event.Producer")
+REG.klass("EventSource", B + "core.event.EventSource", abstract=True, fields={"producer": "Opt[Producer]"})
+REG.klass("FifoQueueEventSource", B + "core.event.FifoQueueEventSource", bases=["EventSource"], fields={"_queue": "List[Event]"})
+REG.klass("LazyProxy", B + "core.helpers.LazyProxy", fields={"_factory": "Fun", "_obj": "Opt[FifoQueueEventSource]"})
+REG.klass("OrderEvent", B + "backtesting.order_mgr.OrderEvent", bases=["Event"], fields={"order": "OrderInfo"})
+REG.klass("EventDispatcher", B + "core.dispatcher.EventDispatcher", abstract=True)
+REG.klass("BacktestingDispatcher", B + "core.dispatcher.BacktestingDispatcher", bases=["EventDispatcher"],
+          fields={"_last_dt": "Opt[DT]"})
+
+# --- backtesting: prices, lending -----------------------------------------------------------------------------------
+REG.klass("Prices", B + "backtesting.prices.Prices",
+          fields={"_bid_ask_spread_pct": "Real", "_config": "Config", "_last_bars": "Dict[Val:Pair,Bar]"})
+REG.klass("MarginLoanConditions", B + "backtesting.lending.margin.MarginLoanConditions",
+          fields={"interest_symbol": "Str", "interest_percentage": "Real", "interest_period": "TD",
+                  "min_interest": "Real", "margin_requirement": "Real"})
+REG.klass("Loan", B + "backtesting.lending.base.Loan", abstract=True, bases=["ExchObj"],
+          fields={"_id": "Str", "_borrowed_symbol": "Str", "_borrowed_amount": "Real", "_is_open": "Bool",
+                  "_created_at": "DT", "_paid_interest": "ValueMap"})
+REG.klass("MarginLoan", B + "backtesting.lending.margin.MarginLoan", bases=["Loan"],
+          fields={"_conditions": "MarginLoanConditions"})
+REG.klass("LoanInfo", B + "backtesting.lending.base.LoanInfo",
+          fields={"id": "Str", "is_open": "Bool", "borrowed_symbol": "Str", "borrowed_amount": "Real",
+                  "outstanding_interest": "Dict[Str,Real]", "paid_interest": "Dict[Str,Real]"})
+REG.klass("LoanContainer", B + "backtesting.helpers.ExchangeObjectContainer", bases=["ExchangeObjectContainer"],
+          params={"T": "Loan"})
+REG.klass("LendingCtx", B + "backtesting.lending.base.ExchangeContext",
+          fields={"dispatcher": "BacktestingDispatcher", "account_balances": "AccountBalances", "prices": "Prices",
+                  "config": "Config"})
+REG.klass("LendingStrategy", B + "backtesting.lending.base.LendingStrategy", abstract=True)
+REG.klass("NoLoans", B + "backtesting.lending.base.NoLoans", bases=["LendingStrategy"])
+REG.klass("LoanManager", B + "backtesting.loan_mgr.LoanManager",
+          fields={"_loans": "LoanContainer", "_ctx": "LendingCtx", "_lending_strategy": "LendingStrategy",
+                  "_collateral_by_loan": "Dict[Str,ValueMap]"})
+REG.klass("MarginLoans", B + "backtesting.lending.margin.MarginLoans", bases=["LendingStrategy"],
+          fields={"_quote_symbol": "Str", "_conditions": "Dict[Str,MarginLoanConditions]",
+                  "_default_conditions": "Opt[MarginLoanConditions]", "_loan_mgr": "Opt[LoanManager]",
+                  "_exchange_ctx": "Opt[LendingCtx]"})
+REG.klass("CheckMarginLevel", B + "backtesting.lending.margin.CheckMarginLevel", bases=["UpdateRule"],
+          fields={"_margin_loans": "MarginLoans"})
+
+# --- backtesting: order manager ---------------------------------------------------------------------------------------
+REG.klass("OrderMgrCtx", B + "backtesting.order_mgr.ExchangeContext",
+          fields={"dispatcher": "BacktestingDispatcher", "account_balances": "AccountBalances", "prices": "Prices",
+                  "fee_strategy": "FeeStrategy", "liquidity_strategy_factory": "Fun", "loan_mgr": "LoanManager",
+                  "config": "Config"})
+REG.klass("OrderManager", B + "backtesting.order_mgr.OrderManager",
+          fields={"_ctx": "OrderMgrCtx", "_liquidity_strategies": "Dict[Val:Pair,LiquidityStrategy]",
+                  "_orders": "OrderContainer", "_holds_by_order": "Dict[Str,ValueMap]", "_order_updates": "LazyProxy"})
